@@ -1125,6 +1125,27 @@ pub fn run_c02(r: &Runner) {
 }
 
 pub fn run_c03(r: &Runner) {
+    // k stored header lines at narrow-counter boundaries followed by a special line
+    {
+        const KS: [usize; 8] = [255, 256, 257, 512, 65535, 65536, 65537, 70000];
+        const TAILS: [&[u8]; 6] = [b"\t\r\n\r\n", b" \n\n", b" Lead: x\r\n\r\n", b" cont\r\n\r\n", b"bad line\r\n\r\n", b"\r\n"];
+        let combos = all_opt_combos();
+        let total = (KS.len() * TAILS.len() * combos.len()) as u64;
+        r.par_enum("k stored header lines for k in {255,256,257,512,65535,65536,65537,70000} followed by a whitespace-only / whitespace-led / invalid / empty line × option combos", total, |ctx, l, idx| {
+            let mut x = idx as usize;
+            let (entry, cfg) = combos[x % combos.len()];
+            x /= combos.len();
+            let tail = TAILS[x % TAILS.len()];
+            let k = KS[x / TAILS.len()];
+            let mut block = Vec::with_capacity(k * 5 + 32);
+            for _ in 0..k {
+                block.extend_from_slice(b"a:b\n");
+            }
+            block.extend_from_slice(tail);
+            let rec = CaseRec::new("frame", entry, cfg, k + 8, with_start_line(entry.kind(), &block));
+            check_c03(r, ctx, l, &rec)
+        });
+    }
     families_phase(r, "frame", &any_entry, check_c03);
     literal_sweep(r, "frame", check_c03);
     let g = GenSpec { kinds: &ALL_KINDS, profile: Profile { truncate: 40, ..Profile::DEFAULT }, generous_cap: false, cfg_mask: 0x7f, cfg_entry_only: false };
@@ -1216,7 +1237,22 @@ pub fn run_c05(r: &Runner) {
     );
 }
 
+fn rr_entry(e: Entry, _c: u8) -> bool {
+    matches!(e.kind(), Kind::Request | Kind::Response)
+}
+
 pub fn run_c15(r: &Runner) {
+    // scale families: part 1 on the family's message, part 2 with every other-kind bit set
+    families_phase(r, "c15-default-accepted", &rr_entry, |r, ctx, l, rec| {
+        let mut a = rec.clone();
+        a.entry = Entry::cfg_entry(rec.kind());
+        check_c15(r, ctx, l, &a)?;
+        let other = if rec.kind() == Kind::Request { RESPONSE_ONLY_BITS } else { REQUEST_ONLY_BITS };
+        let mut b = a.clone();
+        b.sub = std::borrow::Cow::Borrowed("c15-other-kind");
+        b.aux = vec![(rec.cfg ^ other) as u64];
+        check_c15(r, ctx, l, &b)
+    });
     let g = GenSpec { kinds: &RR_KINDS, profile: Profile::CLEAN, generous_cap: false, cfg_mask: 0, cfg_entry_only: true };
     r.par_random(
         "part 1: G1 mostly-valid messages; each default-Complete one × all 128 configs",
@@ -1269,6 +1305,7 @@ pub fn run_c15(r: &Runner) {
 }
 
 pub fn run_c16(r: &Runner) {
+    families_phase(r, "c16-same-kind", &rr_entry, check_c16);
     let g = GenSpec { kinds: &RR_KINDS, profile: Profile::DEFAULT, generous_cap: false, cfg_mask: 0x7f, cfg_entry_only: true };
     r.par_random(
         "G1 messages × configs × capacities 0..=k+2: the 4 request / 4 response entry points",
